@@ -146,6 +146,62 @@
         assert!(deep.is_ok(), "panic in nested syntax");
     }
 
+//# ob name=composition_no_panic_native role=native_bounded fn=vm::{perform_include,perform_super,call_block,load_blocks,eval_impl(FastRecurse,CallFunction,FastSuper)} kind=bounded bound="17 partial templates that use super() / self.name() / caller() / loop / loop(..) / extends / import at their top level x 8 host constructs (block of an extending template, plain block, loop inside a block, macro, call block, recursive loop, set-block, top level) x 4 ways of including / importing the partial; plus loop(..) called from a block or an included template inside a recursive loop (6 shapes); watchdog 20 s" stmt="loading and rendering either succeeds or returns an error value: it never panics and always returns (found on the unchanged tree: super() at the top level of a template included from inside a block unwrapped a missing block stack; loop(..) called from a block or an included template inside a recursive loop jumped into the wrong instruction stream and never returned)"
+    fn composition_no_panic_native() {
+        with_watchdog("composition_no_panic_native", 20, |progress| {
+        let guard = |what: &str, f: &mut dyn FnMut()| {
+            let r = std::panic::catch_unwind(std::panic::AssertUnwindSafe(|| f()));
+            if r.is_err() { panic!("PANIC while processing {what:?}"); }
+        };
+        // composition: special callables and loop / block machinery used at the top level of a template that is
+        // included / imported / extended from inside a block, macro, call block or loop (found on the unchanged tree:
+        // `{{ super() }}` at the top level of a template included from inside a block unwrapped a missing block stack)
+        {
+            let partials = ["{{ super() }}", "{{ super }}", "{{ self.a() }}", "{{ self.nope() }}", "{{ caller() }}", "{{ loop.index }}", "{{ loop(1) }}", "{{ loop }}",
+                            "{% block a %}{{ super() }}{% endblock %}", "{% block z %}{{ super() }}{% endblock %}", "{% extends 'base' %}{% block a %}{{ super() }}{{ self.a() if false }}{% endblock %}",
+                            "{% macro pm() %}{{ super() }}{{ caller() }}{% endmacro %}{{ pm() }}", "{% for i in [1] recursive %}{{ super() }}{% endfor %}", "{% include 'partial' %}",
+                            "{% extends 'child' %}", "{% from 'child' import nothing %}{{ nothing() }}", "{% set x = super %}{{ x() }}"];
+            let hosts = ["{% extends 'base' %}{% block a %}USE{% endblock %}", "{% block a %}USE{% endblock %}", "{% extends 'base' %}{% block a %}{{ super() }}{% for i in [1, 2] %}USE{% endfor %}{% endblock %}",
+                         "{% macro hm() %}USE{% endmacro %}{{ hm() }}", "{% macro w() %}{{ caller() }}{% endmacro %}{% call w() %}USE{% endcall %}", "{% for i in [1] recursive %}USE{% endfor %}",
+                         "{% extends 'base' %}{% block a %}{% set c %}USE{% endset %}{{ c }}{% endblock %}", "USE"];
+            let uses = ["{% include 'partial' %}", "{% import 'partial' as p %}{{ p }}", "{% from 'partial' import q %}{{ q }}", "{% include ['nope', 'partial'] %}"];
+            let mut k = 0;
+            for part in partials { for host in hosts { for u in uses {
+                let src = host.replace("USE", u);
+                let what = format!("{src} with partial {part}");
+                progress(&what);
+                guard(&what, &mut || {
+                    let mut env = Environment::new();
+                    env.add_template("base", "B[{% block a %}base-a{% endblock %}]").unwrap();
+                    if env.add_template("partial", part).is_err() { return; }
+                    if env.add_template("child", &src).is_ok() { let _ = env.get_template("child").unwrap().render(crate::context! { x => 1 }); }
+                });
+                k += 1;
+            }}}
+            assert!(k > 500);
+        }
+        // loop(..) reached from another instruction stream than the one the recursive loop was compiled into
+        for (host, part) in [
+            ("{% for i in [[1]] recursive %}{% include 'partial' %}{% endfor %}", "{{ loop([]) }}"),
+            ("{% for i in [1] recursive %}{% include 'partial' %}{% endfor %}", "{{ loop(1) }}"),
+            ("{% for i in [[1, 2]] recursive %}<{{ i }}{% include 'partial' %}>{% endfor %}", "{% if i is sequence %}{{ loop(i) }}{% endif %}"),
+            ("{% for i in [[1, 2]] recursive %}<{{ i }}{% block b %}{% if i is sequence %}{{ loop(i) }}{% endif %}{% endblock %}>{% endfor %}", ""),
+            ("{% extends 'base2' %}{% block b %}{% if i is sequence %}{{ loop(i) }}{% endif %}{% endblock %}", ""),
+            ("{% for i in [[1, 2]] recursive %}{% set l = loop %}{% macro m(v) %}{{ l(v) }}{% endmacro %}<{{ i }}{% if i is sequence %}{{ m(i) }}{% endif %}>{% endfor %}", ""),
+        ] {
+            let what = format!("{host} with partial {part}");
+            progress(&what);
+            guard(&what, &mut || {
+                let mut env = Environment::new();
+                env.add_template("partial", part).unwrap();
+                env.add_template("base2", "{% for i in [[1, 2]] recursive %}<{{ i }}{% block b %}{% endblock %}>{% endfor %}").unwrap();
+                env.add_template("child", host).unwrap();
+                let _ = env.get_template("child").unwrap().render(crate::context! { x => 1 });
+            });
+        }
+        });
+    }
+
 //# ob name=nesting_no_panic_native role=native_bounded fn=compiler::parser+compiler::codegen+vm::eval_impl kind=bounded bound="every nesting of depth 1..=3 of 11 block constructs {for, for-else (taken and not taken), if, with, set-block, filter-block, autoescape, call-block, macro body, block} around each of 10 leaf statements {break, continue, text, expression, set, loop.index, caller(), super(), include, nested loop call}: about 1.5*10^4 templates, loaded and rendered (feature loop_controls); the listed known finding (break/continue leaving a with / set-block / filter block, DESIGN §7) is excluded" stmt="loading and rendering every such template returns a value or an error; it never panics (a loop control inside a body that runs in another frame - call block, macro - must be rejected at load time or handled, not crash at run time)"
     fn nesting_no_panic_native() {
         with_watchdog("nesting_no_panic_native", 30, |progress| {
